@@ -789,7 +789,7 @@ func RunHist(tag string, frames []Frame, ops []Op) Hist {
 		}
 		pool, nrows := r.snapshot()
 		lastPool, lastNrows = pool, nrows
-		h.Steps = append(h.Steps, StepObs{Op: o, Out: out, Pool: pool, Nrows: nrows})
+		h.Steps = append(h.Steps, StepObs{Op: o, Out: out, Pool: pool, Nrows: nrows, Shared: sharedArrays(r.pool)})
 	}
 	r.buildOracles(&h)
 	r.cleanup()
